@@ -128,9 +128,12 @@ def run_inline(files: dict, flags=(), *, directory: Path | None = None, keep=Fal
 
     d = directory or fresh_dir()
     res = Session()
+    old_cwd = os.getcwd()
     try:
         if directory is None or files:
             write_files(d, files)
+        # pytest runs in the project directory; black looks its configuration up from the cwd
+        os.chdir(d)
         if not (d / "pyproject.toml").exists() and pyproject is not None:
             (d / "pyproject.toml").write_text(pyproject)
         res.files_before = read_files(d)
@@ -202,6 +205,7 @@ def run_inline(files: dict, flags=(), *, directory: Path | None = None, keep=Fal
         res.directory = d
         return res
     finally:
+        os.chdir(old_cwd)
         cleanup_caches()
         if not keep and directory is None:
             shutil.rmtree(d, ignore_errors=True)
